@@ -190,7 +190,10 @@ func (k Keeper) FeeRefund(ctx context.Context, hashId []byte, amt math.Int) erro
 			return err
 		}
 	}
-	return k.FeePaidFromStake.Remove(ctx, hashId)
+	// the tracker holds the stake origins of every payer that paid this dispute's fee from stake and each of
+	// them withdraws on its own: it stays until all have (every refund is spread pro rata over all origins, so
+	// once all payers have withdrawn each origin has received its own share)
+	return nil
 }
 
 // GetBondedValidators returns a list of BONDED validators up to a given maximum number.
